@@ -3,3 +3,5 @@ import XPathV.Theorems.C03
 #print axioms XPathV.Theorems.C03.numeric_predicate_is_position
 #print axioms XPathV.Theorems.C03.merge_is_per_parent
 #print axioms XPathV.Theorems.C03.group_positions_global
+#print axioms XPathV.Theorems.C03.child_pos_is_proximity
+#print axioms XPathV.Theorems.C03.nth_child
